@@ -69,7 +69,7 @@ func TestHistories(t *testing.T) {
 		for i := 0; i < n; i++ {
 			var ex expect
 			var cmd ipmi.Command
-			if rapid.IntRange(0, 2).Draw(t, "custom") == 0 {
+			if rapid.IntRange(0, 1).Draw(t, "custom") == 0 {
 				op := ipmi.Operation{}
 				switch rapid.IntRange(0, 3).Draw(t, "netfnClass") {
 				case 0:
@@ -83,7 +83,10 @@ func TestHistories(t *testing.T) {
 				}
 				op.Command = ipmi.CommandNumber(rapid.IntRange(0xE0, 0xFF).Draw(t, "cmd"))
 				lun := byte(rapid.IntRange(0, 3).Draw(t, "lun"))
-				body := rapid.SliceOfN(rapid.Byte(), 0, 200).Draw(t, "body")
+				// body lengths spread evenly over 0..200: whether a serialise buffer
+				// has to grow depends on each length relative to the earlier ones
+				bl := int(rapid.Uint16().Draw(t, "bodyLen")) % 201
+				body := rapid.SliceOfN(rapid.Byte(), bl, bl).Draw(t, "body")
 				cmd, _ = hx.RawCommand("custom", op, lun, body)
 				ex = expect{name: "custom", raw: true, netfn: byte(op.Function), cmd: byte(op.Command), lun: lun}
 				switch op.Function {
